@@ -225,6 +225,12 @@ func jobShapesHistory(t int) ([]txop, []op) {
 		{Op: "commit", Txs: []txop{}},
 		{Op: "finalize"},
 		{Op: "drain"},
+		// a block that changes the state, an empty block committed on the same root, then a checkpoint of that
+		// root (seeded defect C10-S is of this kind: the repeated commit must not forget the dirty hashes)
+		{Op: "commit", Txs: []txop{{K: "set", A: 2, X: 1, V: 1 + t%2}, {K: "bal", A: 3, V: 2}}},
+		{Op: "noop"},
+		{Op: "cp", Idx: -1},
+		{Op: "drain"},
 	}
 	return gen, ops
 }
@@ -255,6 +261,8 @@ func pick(d *driver, rng *rand.Rand, withJobs bool) op {
 			o = op{Op: "step"}
 		} else {
 			switch {
+			case r < 3 && withJobs:
+				o = op{Op: "noop"}
 			case r < 30:
 				o = op{Op: "commit"}
 				if len(d.rolled[d.head().rid]) > 0 && rng.Intn(2) == 0 {
@@ -398,6 +406,8 @@ func (d *driver) mapStep(st schedStep) (op, bool) {
 			return op{Op: "reapply"}, true
 		}
 		return op{Op: "commit"}, true
+	case "CommitNoop":
+		return op{Op: "noop"}, true
 	case "Finalize":
 		return op{Op: "finalize"}, true
 	case "Rollback":
